@@ -1,17 +1,22 @@
-#!/bin/sh
-# usage: confirm_mutant.sh <worktree> <outdir>   — confirms a seeded change in its scratch worktree:
-# demo passes on the clean tree, fails with the patch, and the pinned suite still has its 638 passes.
+#!/bin/bash
+# usage: confirm_mutant.sh <worktree> <dir with patch.diff demo.sh>  — confirms a seeded change in a scratch worktree at /repo's HEAD:
+# demo passes on the clean tree, fails with the patch, and the pinned suite still passes exactly the baseline's tests.
 WT=$1; OUT=$2
 cd "$WT" || exit 2
 export CARGO_NET_OFFLINE=true
 git checkout -q -- . 2>/dev/null
-git apply --check "$OUT/patch.diff" || { echo "PATCH DOES NOT APPLY"; exit 1; }
-cargo build --offline -j6 -p cfn-guard --bin cfn-guard >/dev/null 2>&1 || { echo "CLEAN BUILD FAILED"; exit 1; }
+git checkout -q --detach "$(git -C /repo rev-parse HEAD)" || exit 2
+if ! git apply --check "$OUT/patch.diff" 2>/dev/null; then
+  git apply -3 "$OUT/patch.diff" >/dev/null 2>&1 || { echo "PATCH DOES NOT APPLY"; git checkout -q -- .; exit 1; }
+  git diff HEAD > "$OUT/patch.diff"; git reset -q --hard
+  echo "(patch rebased onto current HEAD)"
+fi
+cargo build --offline -j5 -p cfn-guard --bin cfn-guard >/dev/null 2>&1 || { echo "CLEAN BUILD FAILED"; exit 1; }
 bash "$OUT/demo.sh" "$WT/target/debug/cfn-guard" >/dev/null 2>&1; A=$?
 git apply "$OUT/patch.diff"
-cargo build --offline -j6 -p cfn-guard --bin cfn-guard >/dev/null 2>&1 || { echo "PATCHED BUILD FAILED"; exit 1; }
+cargo build --offline -j5 -p cfn-guard --bin cfn-guard >/dev/null 2>&1 || { echo "PATCHED BUILD FAILED"; git checkout -q -- .; exit 1; }
 bash "$OUT/demo.sh" "$WT/target/debug/cfn-guard" >/dev/null 2>&1; B=$?
-T=$(cargo nextest run --workspace --no-fail-fast --offline --test-threads 6 2>&1 | grep -E "^\s*Summary" | tail -1)
+T=$(/verif/tools/baseline.sh "$WT" 2>&1 | tail -3 | tr '\n' ' ')
 git checkout -q -- .
 echo "demo clean=$A patched=$B tests: $T"
-[ "$A" = "0" ] && [ "$B" != "0" ] && echo "$T" | grep -q "638 passed" && echo CONFIRMED
+if [ "$A" = "0" ] && [ "$B" != "0" ] && echo "$T" | grep -q "stable tests not passing: 0"; then echo CONFIRMED; else echo NOT-CONFIRMED; fi
